@@ -490,6 +490,19 @@ fn main() {
                         g = raw.with_hash();
                         roundtrip::<validator::Genesis>("Genesis", &g, &mut rng, &mut rep);
                     }
+                    "schedule" => {
+                        let infos: Vec<validator::ValidatorInfo> = (0..3u64)
+                            .map(|i| validator::ValidatorInfo { key: rng.gen::<validator::SecretKey>().public(), weight: 1 + i, leader: !(i == 1 && case["nonleader"].as_bool().unwrap()) })
+                            .collect();
+                        let sel = validator::LeaderSelection {
+                            frequency: match case["freq"].as_str().unwrap() { "0" => 0, "1" => 1, _ => u64::MAX },
+                            mode: if case["mode"] == "rr" { validator::LeaderSelectionMode::RoundRobin } else { validator::LeaderSelectionMode::Weighted },
+                        };
+                        match validator::Schedule::new(infos, sel) {
+                            Ok(sch) => roundtrip::<validator::Schedule>("Schedule", &sch, &mut rng, &mut rep),
+                            Err(_) => rep.count("std_case_not_representable"),
+                        }
+                    }
                     "replica_state" => {
                         let mut v: validator::v2::ChonkyV2State = rng.gen();
                         let pay = if case["payload"] == "empty" { vec![] } else { vec![7u8] };
@@ -499,7 +512,13 @@ fn main() {
                             v.high_commit_qc = None;
                             v.high_timeout_qc = None;
                         }
+                        v.phase = match case["phase"].as_str().unwrap_or("prepare") {
+                            "commit" => validator::v2::Phase::Commit,
+                            "timeout" => validator::v2::Phase::Timeout,
+                            _ => validator::v2::Phase::Prepare,
+                        };
                         roundtrip::<validator::v2::ChonkyV2State>("ChonkyV2State", &v, &mut rng, &mut rep);
+                        roundtrip::<validator::ReplicaState>("ReplicaState", &validator::ReplicaState::V2(v), &mut rng, &mut rep);
                     }
                     _ => rep.count("std_case_unknown_kind"),
                 }
